@@ -587,6 +587,7 @@ _thorough(r"^C01/legal/is-legal/(CastlingKingside/b|CastlingQueenside/w)$")   # 
 # and C01 / C02 ran into the deadline; single queries of more than ~8 minutes here do not fit
 _thorough(r"^C01/legal/is-legal-prefilter/king-moves/[wb]$")   # 536 s here under load: does not fit there
 _thorough(r"^C01/legal/is-legal/Simple/b$")
+_thorough(r"^C02/make-move/(CastlingKingside/w|CastlingQueenside/b|PawnDouble/w)$")   # quick keeps one colour of each
 _thorough(r"^C02/make-move/Simple/[wb]$")      # the Make wrapper is kind-independent; plain moves: C03/make/Simple + C01/legal/is-legal/Simple
 # queen = do_gen_brq with both ray flags; bishop and rook run the same function with one flag each
 _thorough(r"^(C01/gen|C07/gen-exit)/queen/.*/le3$")
